@@ -305,6 +305,13 @@ func writeEvidence(run *checkRun, verif string, discharged int, known, failed []
 	if nb > 0 {
 		ev.Coverage["bounded_stand_ins"] = boundedList
 	}
+	// clauses of the property that no obligation of this check decides (DESIGN.md 8.4; static text)
+	if data, err := os.ReadFile(filepath.Join(verif, "not_decided.json")); err == nil {
+		nd := map[string]string{}
+		if json.Unmarshal(data, &nd) == nil && nd[run.prop] != "" {
+			ev.Coverage["not_decided"] = nd[run.prop]
+		}
+	}
 	if run.vacuity != nil {
 		ev.Coverage["seeded_change_corpus"] = run.vacuity
 	}
